@@ -559,9 +559,15 @@ def _relayout(a, rng):
 
 def _vary(x, rng):
     if isinstance(x, np.ndarray):
-        if rng.random() < 0.6:
+        u = rng.random()
+        if u < 0.45:
             LAYOUT_STATS["relayouted_args"] += 1
             return _relayout(x, rng)
+        if u < 0.7 and type(x) is np.ndarray and x.size >= 2 and x.dtype.kind in "biuf":
+            # same layout, but a private copy: it is overwritten after the call (see the wrapper), which an
+            # implementation notices only if it kept a reference to (a view of) its argument
+            LAYOUT_STATS["private_copies"] = LAYOUT_STATS.get("private_copies", 0) + 1
+            return np.array(x, copy=True, order="K")
         return x
     if isinstance(x, tuple) and 0 < len(x) <= 3 and all(isinstance(y, np.ndarray) for y in x):
         return tuple(_vary(y, rng) for y in x)
@@ -596,7 +602,12 @@ def install_layout_variation(p=0.35):
             orig = list(args[k0:]) + list(kwargs.values())
             args = tuple(args[:k0]) + tuple(_vary(a, _LAY_RNG) for a in args[k0:])
             kwargs = {k: _vary(v, _LAY_RNG) for k, v in kwargs.items()}
-            mine = [b for a, b in zip(orig, list(args[k0:]) + list(kwargs.values())) if b is not a]
+            mine = []
+            for a0, b0 in zip(orig, list(args[k0:]) + list(kwargs.values())):
+                if isinstance(b0, tuple) and isinstance(a0, tuple):
+                    mine += [y for x, y in zip(a0, b0) if y is not x]
+                elif b0 is not a0:
+                    mine.append(b0)
             depth[0] += 1
             try:
                 out = fn(*args, **kwargs)
@@ -607,7 +618,7 @@ def install_layout_variation(p=0.35):
             # implementation that kept a reference to an argument for later calls now holds something else.
             res = [x for x in (out if isinstance(out, (tuple, list)) else [out]) if isinstance(x, np.ndarray)]
             for b in mine:
-                for y in (b if isinstance(b, tuple) else (b,)):
+                for y in (b,):
                     if isinstance(y, np.ndarray) and y.flags.writeable and not any(np.shares_memory(y, r) for r in res):
                         y[...] = y.flat[0]
                         LAYOUT_STATS["scribbled_after_call"] = LAYOUT_STATS.get("scribbled_after_call", 0) + 1
